@@ -35,6 +35,9 @@ type fz struct {
 	stunPkt  *router.Packet
 	sl       slayers.SCION
 	gated    int64 // inputs the receive path would not hand to a processor
+	// panicOnly: run C09's structured error-provoking generator but judge only
+	// what C08 states (no panic, emitted packets consistent).
+	panicOnly bool
 }
 
 func (f *fz) star() int { return f.rng.IntN(len(f.stars)) }
@@ -491,7 +494,7 @@ func checkC08(r *mon.Run) {
 	defer li.close()
 	fzs := make([]*fz, workers)
 	for w := range fzs {
-		f := &fz{r: r, id: w, rng: r.Rand(fmt.Sprintf("c08-w%d", w)), a: newAgg(r), li: li, variants: c08Variants}
+		f := &fz{r: r, id: w, rng: r.Rand(fmt.Sprintf("c08-w%d", w)), a: newAgg(r), li: li, variants: c08Variants, panicOnly: true}
 		for _, v := range c08Variants {
 			f.stars = append(f.stars, newFuzzStar(r, v))
 		}
@@ -510,6 +513,11 @@ func checkC08(r *mon.Run) {
 				f.genRandom()
 				if i%2 == 0 {
 					f.genSTUN()
+				}
+				// structured error-provoking packets (every SCMP cause, paths of up to 64
+				// hops so that the reply header sweeps across the headroom boundary, auth
+				// on/off): the slow path's own serialization must not crash either
+				for try := 0; try < 20 && !f.c09One(i); try++ {
 				}
 				if i%1024 == 0 {
 					f.genBFD(i / 1024)
@@ -531,7 +539,7 @@ func checkC08(r *mon.Run) {
 	r.Extra("max_input_len", maxInput)
 	r.Require(int64(r.Pick(180_000, 10_000_000)), 300,
 		"emitted_consistent", "stun_response", "stun_rejected", "receive_drop_not_scion",
-		"outcome:forward", "outcome:deliver", "outcome:discard", "outcome:traceroute-reply", "outcome:alert-declined-sent-back", "outcome:scmp-4-51", "outcome:done")
+		"structured_error_case", "outcome:forward", "outcome:deliver", "outcome:discard", "outcome:traceroute-reply", "outcome:alert-declined-sent-back", "outcome:scmp-4-51", "outcome:done")
 	r.RequireClasses(
 		"mut:none/external/noauth/forward", "mut:none/internal/auth/forward", "mut:none/sibling/noauth/forward",
 		"mut:none/external/auth/deliver", "stun/internal/noauth/stun-response",
